@@ -2,6 +2,7 @@ import Vet.Props.C10Regen
 import Vet.Props.C10
 import Vet.Props.Commands
 import Vet.Props.CommandsAsk
+import Vet.Props.WFCorollaries
 #print axioms Vet.C10_update_preserves_success_partial
 #print axioms Vet.C10_no_new_conflict_partial
 #print axioms Vet.C10_required_contains_path
@@ -14,3 +15,7 @@ import Vet.Props.CommandsAsk
 #print axioms Vet.Cmd.mode_not_regenerate
 #print axioms Vet.CertChain_ask_audit_mono
 #print axioms Vet.C10_certify_ask_keeps_passing
+#print axioms Vet.C10_commands_wf
+#print axioms Vet.C10_certify_ask_keeps_passing_wf
+#print axioms Vet.Store.ask_wf
+#print axioms Vet.Store.wf_spec
